@@ -33,6 +33,8 @@ pub struct PpCfg {
     pub glue: bool,
     /// macros defined by the expansion of a maker macro (`define MK_DEFINE(n, v) `define n v)
     pub define_via: bool,
+    /// `include directives that stand in a macro body (`define INCB `include "f" / `INCB)
+    pub include_via_body: bool,
 }
 
 impl PpCfg {
@@ -55,6 +57,7 @@ impl PpCfg {
             cond_weight: 3,
             glue: false,
             define_via: false,
+            include_via_body: false,
         }
     }
 }
@@ -90,7 +93,8 @@ pub struct Case {
 /// the maker macro of `PpCfg::define_via` (never in the pool: only `undefineall removes it)
 pub const MAKER: &str = "MK_DEFINE";
 const MACRO_NAMES: &[&str] = &["MA", "MB", "MC", "MD", "ME", "wire", "begin", "M_f", "else_x", "endif_1", "elsif_y", "include_w"];
-const FORMAL_NAMES: &[&str] = &["x", "y", "p_a", "fmt"];
+// formal names: plain ones; names of compiler directives (only *macro* names may not be such); names with a '$'
+const FORMAL_SETS: &[&[&str]] = &[&["x", "y", "p_a", "fmt"], &["x", "y", "p_a", "fmt"], &["line", "define", "pragma", "undef"], &["a$b", "x$", "n$1", "_q"]];
 const KEPT: &[&str] = &[
     "`timescale 1ns/1ps",
     "`timescale 10 us / 100 ns",
@@ -102,6 +106,9 @@ const KEPT: &[&str] = &[
     "`nounconnected_drive",
     "`line 7 \"orig.v\" 1",
     "`begin_keywords \"1800-2012\"",
+    "`begin_keywords \"1364-1995\"",
+    "`begin_keywords \"1364-2001-noconfig\"",
+    "`end_keywords",
     "`end_keywords",
 ];
 const BLANKS: &[&str] = &[" ", "  ", "\t", " \t", "   ", "\t\t ", " \t  "];
@@ -300,7 +307,7 @@ impl<'a, 'b> G<'a, 'b> {
         let cands: Vec<String> = self
             .table
             .keys()
-            .filter(|k| k.as_str() != MAKER)
+            .filter(|k| k.as_str() != MAKER && k.as_str() != "INCB")
             .filter(|k| match below {
                 Some(b) => macro_rank(k) < macro_rank(b),
                 None => true,
@@ -357,11 +364,12 @@ impl<'a, 'b> G<'a, 'b> {
 
     fn macro_def(&mut self, name: &str, live: bool) -> MacroDef {
         let nf = self.t.weighted(&[4, 3, 2, 1]);
+        let formal_names: &[&str] = FORMAL_SETS[self.t.below(FORMAL_SETS.len())];
         let mut formals: Vec<Formal> = Vec::new();
         #[allow(unused_assignments)]
         let mut need_default = false;
         for i in 0..nf {
-            let fname = FORMAL_NAMES[i].to_string();
+            let fname = formal_names[i].to_string();
             let with_default = self.t.chance(1, 3);
             let default = if with_default {
                 need_default = true;
@@ -392,6 +400,13 @@ impl<'a, 'b> G<'a, 'b> {
                     b.push(BodyTok::Sp);
                 }
                 match k {
+                    0 if nf > 0 && self.t.chance(1, 8) => {
+                        // an identifier that merely contains a formal's name next to a '$' (w$x, x$): one token, untouched
+                        let f = formal_names[self.t.below(nf)];
+                        let k = self.uid();
+                        let tok = if self.t.flip() { format!("w{}${}", k, f) } else { format!("{}$w{}", f, k) };
+                        b.push(BodyTok::Tok(tok));
+                    }
                     0 => {
                         let tok = if self.t.chance(1, 5) { self.t.pick_str(&["+", ";", "=", "[", "]", "42", ","]).to_string() } else { format!("b{}", self.uid()) };
                         b.push(BodyTok::Tok(tok));
@@ -429,7 +444,7 @@ impl<'a, 'b> G<'a, 'b> {
                     }
                     4 => {
                         // ordinary string naming a formal: must stay untouched
-                        let f = if nf > 0 { FORMAL_NAMES[self.t.below(nf)] } else { "x" };
+                        let f = if nf > 0 { formal_names[self.t.below(nf)] } else { "x" };
                         let k = self.uid();
                         b.push(BodyTok::Str(format!("\"{} s{} {}\"", f, k, f)));
                         b.push(BodyTok::Sp);
@@ -767,6 +782,24 @@ impl<'a, 'b> G<'a, 'b> {
                             };
                             self.table.insert(mname, Some(MDef { def: d.clone(), origin: DefOrigin::File(self.cur_file) }));
                             out.push(Item::Define(d, "\n".to_string()));
+                        }
+                        // the whole directive as the body of a macro that is used here
+                        if self.cfg.include_via_body && live {
+                            if let Item::Include { name, style, .. } = &mut it {
+                                if matches!(style, IncStyle::Quote) && self.t.chance(1, 3) {
+                                    let mname = "INCB".to_string();
+                                    *style = IncStyle::ViaBody(mname.clone());
+                                    let d = MacroDef {
+                                        id: self.uid(),
+                                        name: mname.clone(),
+                                        formals: vec![],
+                                        body: Some(vec![BodyTok::Tok("`include".to_string()), BodyTok::Sp, BodyTok::Str(format!("\"{}\"", name))]),
+                                        trailing_comment: None,
+                                    };
+                                    self.table.insert(mname, Some(MDef { def: d.clone(), origin: DefOrigin::File(self.cur_file) }));
+                                    out.push(Item::Define(d, "\n".to_string()));
+                                }
+                            }
                         }
                         // the directive must stand on its own line: make sure the previous item ends with a newline
                         ensure_trailing_newline(&mut out);
